@@ -352,6 +352,20 @@ func (p *Proxy) EndBlackholes() {
 	}
 }
 
+// PlannedLive returns the number of live connections that carry (or carried) a fault plan: 0 means
+// that every injected fault has run to completion, whatever healthy connections exist besides.
+func (p *Proxy) PlannedLive() int {
+	p.mu.Lock()
+	defer p.mu.Unlock()
+	n := 0
+	for pc := range p.conns {
+		if pc.plan.Kind != CutNone {
+			n++
+		}
+	}
+	return n
+}
+
 // KillAll breaks every live connection.
 func (p *Proxy) KillAll(kind CutKind) {
 	p.mu.Lock()
